@@ -2,6 +2,7 @@
 from __future__ import annotations
 
 import subprocess
+import zlib
 import tempfile
 import time
 
@@ -64,6 +65,7 @@ class Config:
     oblig_timeout_ms = 60000
     max_paths = 20000
     use_cvc5 = True
+    shard = None  # (k, nshards, depth): explore only this shard of the path space (see State.choose)
     keep_smt2 = 3  # how many sample obligations keep their SMT-LIB text
     qf_branching = False  # opt-in per contract (`qf_branching = True`): decide branch feasibility on the quantifier-free
     # part of the path condition only.  Sound (a branch is dropped only when refuted); a branch that only the quantified
@@ -264,6 +266,14 @@ class State:
             i = feas[0]
             self.decisions.append([i, feas[1:]])
         self.pos += 1
+        sh = self.cfg.shard
+        if sh is not None and self.pos == sh[2]:
+            # path-space sharding: this process explores only the paths whose first `depth` choices hash to its
+            # shard; the union over the shards is the whole path space (results merged by (obligation, path) key)
+            k, nshards, depth = sh
+            h = zlib.crc32(bytes(min(d[0], 255) for d in self.decisions[:depth]))
+            if h % nshards != k:
+                raise PathEnd()
         self.assume(conds[i])
         return i
 
